@@ -195,12 +195,31 @@ class OtherProcess:
             self.p.kill()
 
 
-def evaluate(s, style, ctx: Ctx = None, gen_name='?', other=None, meta=None, topo=True):
+def evaluate(s, style, ctx: Ctx = None, gen_name='?', other=None, meta=None, topo=True, script=()):
     viols = []
     for how, db, text in C.databases(s, style, ctx):
         case = dict(schema=model.to_json(s), how=how, text=text, gen=gen_name)
         vs, sql = check_db(s, db, case, topo)
         viols += vs
+        if script and sql is not None and not vs:
+            # "depends only on the model": after in-place edits the order is that of a fresh build of the edited model
+            try:
+                s2 = C.edited(s, db, script)
+            except Exception:  # noqa
+                s2 = None
+            if s2 is not None:
+                case2 = dict(case, script=[list(x) for x in script], phase='edited')
+                try:
+                    live, fresh = table_order(db.sql), table_order(build(s2).sql)
+                    if live != fresh:
+                        viols.append(Viol('c18:determinism.after-edit', f'after render, in-place edits and render the table order is {live}, '
+                                                                        f'a fresh build of the same model gives {fresh}', case2, size=len(sql)))
+                    vs2, _ = check_db(s2, db, case2, topo)
+                    viols += [Viol(v.bucket + ':after-edit', v.message, case2, finding=v.finding, size=v.size) for v in vs2]
+                except Exception as e:  # noqa
+                    viols.append(Viol(f'c18:after-edit:raise:{type(e).__name__}', f'rendering after edits raised {type(e).__name__}: {e}', case2))
+                if ctx is not None:
+                    ctx.record(thash('edited' + how + repr(model.to_json(s2))), False, ['phase:edited'])
         if sql is not None:
             # a rebuild of the same model gives the same order
             again = C.databases(s, style if how == 'parsed' else None)
@@ -243,7 +262,16 @@ def replay(case):
     from pydbml import PyDBML
     s = model.from_json(case['schema'])
     db = PyDBML.parse(case['text']) if case.get('how') == 'parsed' and case.get('text') else build(s)
-    return check_db(s, db, {k: v for k, v in case.items() if k != 'sql'})[0]
+    base = {k: v for k, v in case.items() if k != 'sql'}
+    if case.get('phase') == 'edited':
+        db.sql
+        s2 = C.edited(s, db, [tuple(x) for x in case['script']])
+        out = check_db(s2, db, base)[0]
+        live, fresh = table_order(db.sql), table_order(build(s2).sql)
+        if live != fresh:
+            out.append(Viol('c18:determinism.after-edit', f'table order {live} vs fresh build {fresh}', base))
+        return out
+    return check_db(s, db, base)[0]
 
 
 def shard(ctx: Ctx):
@@ -256,9 +284,9 @@ def shard(ctx: Ctx):
             s, edges, nn = draw(dags(8 if quick else 10))
             return s, draw(gen.styles()), (edges, nn)
 
-        hyp_run(ctx, 'dags', dcases(), lambda c: evaluate(c[0], c[1], ctx, 'dag', other, c[2]), n)
+        hyp_run(ctx, 'dags', st.tuples(dcases(), C.edit_scripts(3)), lambda c: evaluate(c[0][0], c[0][1], ctx, 'dag', other, c[0][2], True, c[1]), n)
         sizes = gen.Sizes(tables=6, columns=3, indexes=0, enums=0, items=1, refs=8, groups=0, stickies=0, props=0)
-        hyp_run(ctx, 'arbitrary', C.cases(C.parse_features(), sizes, min_tables=2),
-                lambda c: evaluate(c[0], c[1], ctx, 'arbitrary', other, None), n // 2)
+        hyp_run(ctx, 'arbitrary', st.tuples(C.cases(C.parse_features(), sizes, min_tables=2), C.edit_scripts(3)),
+                lambda c: evaluate(c[0][0], c[0][1], ctx, 'arbitrary', other, None, True, c[1]), n // 2)
     finally:
         other.close()
